@@ -854,6 +854,23 @@ class Item:
         self.rewrites.append({"rule": "R3", "what": "`mut self` rebound: `let mut verif_self = self;`, occurrences of `self` in the body renamed"})
         return self
 
+    def rebind_mut_params(self):
+        """R3: `fn f(.., mut x: T, ..)` -> `fn f(.., x0: T, ..) { let mut x = x0; .. }` (the contract names the entry value x0); `mut self` goes through rebind_mut_self."""
+        self.rebind_mut_self()
+        toks, bi = self._body_open()
+        src = self.text
+        head, body = src[:toks[bi][2]], src[toks[bi][2]:]
+        names = re.findall(r"[(,]\s*mut (\w+)\s*:", head)
+        if not names:
+            return self
+        lets = ""
+        for nm in names:
+            head = re.sub(r"([(,]\s*)mut %s(\s*:)" % nm, r"\g<1>%s0\2" % nm, head, count=1)
+            lets += "\n    let mut %s = %s0;" % (nm, nm)
+        self.text = head + lets + body
+        self.rewrites.append({"rule": "R3", "what": "`mut` parameter(s) %s rebound: `let mut x = x0;`" % ", ".join(names)})
+        return self
+
     def insert_at_body_start(self, text, why, fn_name=None):
         """Insert ghost/proof text right after the opening brace of the fn body (no statement anchor needed)."""
         toks, bi = self._body_open(fn_name)
